@@ -110,6 +110,13 @@ def handle (cmd : String) (j : J) : Except String J :=
       match arg with
       | [c] => pure (sJ (GCSpec.baseSet mt.chars mt.gap mt.missing mt.ambig c))
       | _ => throw "baseset: one symbol"
+    | "wcset" =>
+      -- spec side of `complement_is_set_complement`: the base set of the symbol, complemented base by base
+      match arg with
+      | [c] =>
+        let u : Char := if name.endsWith "rna" then 'U' else 'T'
+        pure (sJ (GCSpec.toSet ((GCSpec.baseSet mt.chars mt.gap mt.missing mt.ambig c).map (GCSpec.wcBase u))))
+      | _ => throw "wcset: one symbol"
     | w => throw s!"bad op {w}"
   | "spec" => do
     -- the specification itself (validated against an independent Python oracle each run)
